@@ -43,8 +43,8 @@ ASSUMPTIONS = [
 MIN_COUNTERS = {
     'quick': {'programs_compared_rt_nrt': 100, 'programs_compared_nrt_nrt': 140,
               'seed_independence_pairs': 100, 'log_entries_compared': 3000},
-    'thorough': {'programs_compared_rt_nrt': 5000, 'programs_compared_nrt_nrt': 9000,
-                 'seed_independence_pairs': 4000, 'log_entries_compared': 200000},
+    'thorough': {'programs_compared_rt_nrt': 30000, 'programs_compared_nrt_nrt': 50000,
+                 'seed_independence_pairs': 15000, 'log_entries_compared': 1000000},
 }
 
 
@@ -54,8 +54,8 @@ def plan(tier, seed):
         groups, per = 2, 90
         sind = 300
     else:
-        groups, per = 16, 650
-        sind = 12000
+        groups, per = 16, 4000
+        sind = 60000
     for g in range(groups):
         base = dict(group=g, first_case=g * per, n=per)
         shards.append(dict(name=f'nrtA{g}', mode='nrt', kind='nrt', hard_timeout=600, **base))
